@@ -1,14 +1,21 @@
 #!/bin/bash
 # Runs every seeded change under /verif/seeded against the quick check of the property it breaks
 # (scratch worktree, never /repo itself) and writes /verif/seeded/RESULTS.txt.
+# The checks run from a snapshot of /verif's HEAD (so that edits in progress do not disturb a long run);
+# the snapshot is removed at the end.
 out=/verif/seeded/RESULTS.txt
+snap=$(mktemp -d /tmp/verifsnap-XXXXXX)
+git -C /verif archive HEAD | tar -x -C $snap
+export VERIF_HOME=$snap
+(cd $snap/engine && GOFLAGS=-mod=mod GOPROXY=off GOSUMDB=off GOTOOLCHAIN=local go build -o $snap/bin/gosymx ./cmd/gosymx)
 : > $out.tmp
 for d in /verif/seeded/C??-m?; do
   s=$(basename $d); id=${s%%-*}
-  res=$(/verif/tools/try_mutation.sh $d/patch.diff quick $id 2>/dev/null)
+  res=$($snap/tools/try_mutation.sh $d/patch.diff quick $id 2>/dev/null)
   nv=$(echo "$res" | grep -c "^VIOLATION")
   first=$(echo "$res" | grep "^VIOLATION" | head -1 | sed 's/.*(\(.*\))$/\1/' | cut -c1-160)
   [ "$nv" -gt 0 ] && verdict=DETECTED || verdict=MISSED
   echo "$s check=$id $verdict violations>=$nv  $first" >> $out.tmp
 done
 mv $out.tmp $out
+rm -rf $snap
